@@ -77,8 +77,9 @@ func runC01(c *Ctx) {
 	// ---- order-config -----------------------------------------------------------
 	cc := callsToFn(k.config, k.compose)
 	if len(cc) == 1 {
-		c05SlotsFillR(c, k, cc[0].Common().Args[1], "order-config")
-		c01ConfigFill(c, k, cc[0].Common().Args[1])
+		slots := livePhiValue(cc[0].Common().Args[1], cc[0].Block())
+		c05SlotsFillR(c, k, slots, "order-config")
+		c01ConfigFill(c, k, slots)
 	} else {
 		c.bad("order-config", relName(k.config), k.config.Pos(), "Config has %d compose calls", len(cc))
 	}
@@ -198,7 +199,24 @@ func isForwardRangeIndex(idx ssa.Value) bool {
 			}
 			return false
 		}
-		return okInit && okStep
+		if !(okInit && okStep) {
+			return false
+		}
+		// the explicit loop runs to the full length: `i < len(x)` / `i < n` with n a length call, not an adjusted bound
+		if iff, ok := p.Block().Instrs[len(p.Block().Instrs)-1].(*ssa.If); ok {
+			if b, ok := iff.Cond.(*ssa.BinOp); ok && b.Op == token.LSS && b.X == ssa.Value(p) {
+				if call, ok := b.Y.(*ssa.Call); ok {
+					if bi, ok := call.Call.Value.(*ssa.Builtin); ok && bi.Name() == "len" {
+						return true
+					}
+					switch calleeFullName(call) {
+					case "(reflect.Value).Len", "(reflect.Value).NumField", "(reflect.Type).NumField":
+						return true
+					}
+				}
+			}
+		}
+		return false
 	}
 	return false
 }
@@ -207,9 +225,54 @@ func c01ConfigFill(c *Ctx, k *core, slots ssa.Value) {
 	f := k.config
 	name := relName(f) + "#fill"
 	n := 0
+	// the value of a slot: Extract#0 of sources[idx].Value(...) with the slot's own index
+	isValueOf := func(v ssa.Value, idx ssa.Value) bool {
+		ex, ok := v.(*ssa.Extract)
+		if !ok || ex.Index != 0 {
+			return false
+		}
+		call, ok := ex.Tuple.(*ssa.Call)
+		if !ok || calleeFullName(call) != "("+modPath+".Source).Value" {
+			return false
+		}
+		// receiver: *(&sources[idx]) with the same idx
+		if rl, ok := call.Call.Value.(*ssa.UnOp); ok && rl.Op == token.MUL {
+			if ia2, ok := rl.X.(*ssa.IndexAddr); ok && ia2.Index == idx {
+				if p, ok := ia2.X.(*ssa.Parameter); ok && p.Parent() == f {
+					return true
+				}
+			}
+		}
+		return false
+	}
+	// field-wise fills (`slots[i].source = ...; slots[i].value = ...`) are grouped by their index value
+	type fieldFill struct {
+		idx   ssa.Value
+		pos   token.Pos
+		value ssa.Value
+		nval  int
+	}
+	var fills []*fieldFill
 	for _, i := range allInstrs(f) {
 		st, ok := i.(*ssa.Store)
 		if !ok {
+			continue
+		}
+		if fa, isFA := st.Addr.(*ssa.FieldAddr); isFA {
+			if ia, ok := fa.X.(*ssa.IndexAddr); ok && ia.X == slots && fieldName(fa.X.Type(), fa.Field) == "value" {
+				var g *fieldFill
+				for _, x := range fills {
+					if x.idx == ia.Index {
+						g = x
+					}
+				}
+				if g == nil {
+					g = &fieldFill{idx: ia.Index, pos: st.Pos()}
+					fills = append(fills, g)
+				}
+				g.value = st.Val
+				g.nval++
+			}
 			continue
 		}
 		ia, ok := st.Addr.(*ssa.IndexAddr)
@@ -221,25 +284,19 @@ func c01ConfigFill(c *Ctx, k *core, slots ssa.Value) {
 		okv := false
 		if ld, ok := st.Val.(*ssa.UnOp); ok && ld.Op == token.MUL {
 			if v := litField(ld.X, "value"); v != nil {
-				if ex, ok := v.(*ssa.Extract); ok && ex.Index == 0 {
-					if call, ok := ex.Tuple.(*ssa.Call); ok && calleeFullName(call) == "("+modPath+".Source).Value" {
-						// receiver: *(&sources[idx]) with the same idx
-						if rl, ok := call.Call.Value.(*ssa.UnOp); ok && rl.Op == token.MUL {
-							if ia2, ok := rl.X.(*ssa.IndexAddr); ok && ia2.Index == ia.Index {
-								if p, ok := ia2.X.(*ssa.Parameter); ok && p.Parent() == f {
-									okv = true
-								}
-							}
-						}
-					}
-				}
+				okv = isValueOf(v, ia.Index)
 			}
 		}
 		c.check(okv && isForwardRangeIndex(ia.Index), "order-config", name, st.Pos(),
 			"slot[i] = {sources[i], sources[i].Value(...)} with i the forward range index", "a slot is not filled from the source with the same forward range index")
 	}
+	for _, g := range fills {
+		n++
+		c.check(g.nval == 1 && isValueOf(g.value, g.idx) && isForwardRangeIndex(g.idx), "order-config", name, g.pos,
+			"slot[i].value = sources[i].Value(...) with i the forward range index", "a slot is not filled from the source with the same forward range index")
+	}
 	if n != 1 {
-		c.bad("order-config", name+"-count", f.Pos(), "%d whole-slot writes in Config, want exactly 1", n)
+		c.bad("order-config", name+"-count", f.Pos(), "%d slot fills in Config, want exactly 1", n)
 	}
 }
 
@@ -260,12 +317,16 @@ func c01Compose(c *Ctx, k *core, merge *ssa.Function) {
 		"all layers are merged into one base defined before the loop", "the merge base is (re)defined inside the loop or the merge is not in a loop")
 	// overlay derives from sources[idx] with idx forward
 	var idx ssa.Value
-	okSrc := derivesAll(ov, func(v ssa.Value) bool {
+	isSlotValue := func(v ssa.Value) bool {
 		ld, ok := v.(*ssa.UnOp)
 		if !ok || ld.Op != token.MUL {
 			return false
 		}
-		ia, ok := ld.X.(*ssa.IndexAddr)
+		addr := ld.X
+		if fa, isFA := addr.(*ssa.FieldAddr); isFA && fieldName(fa.X.Type(), fa.Field) == "value" {
+			addr = fa.X // sources[i].value read in place
+		}
+		ia, ok := addr.(*ssa.IndexAddr)
 		if !ok {
 			return false
 		}
@@ -274,25 +335,12 @@ func c01Compose(c *Ctx, k *core, merge *ssa.Function) {
 			return true
 		}
 		return false
-	}, &flowOpts{through: map[string]bool{"(reflect.Value).Elem": true, "(*" + modPath + ".deepCopier).deepCopyValue": false}, w: c.W, maxDepth: 0})
+	}
+	okSrc := derivesAll(ov, isSlotValue, &flowOpts{through: map[string]bool{"(reflect.Value).Elem": true, "(*" + modPath + ".deepCopier).deepCopyValue": false}, w: c.W, maxDepth: 0})
 	if !okSrc {
 		// through the deep copy call: its last argument
 		if call, ok := ov.(*ssa.Call); ok && len(call.Call.Args) > 0 {
-			okSrc = derivesAll(call.Call.Args[len(call.Call.Args)-1], func(v ssa.Value) bool {
-				ld, ok := v.(*ssa.UnOp)
-				if !ok || ld.Op != token.MUL {
-					return false
-				}
-				ia, ok := ld.X.(*ssa.IndexAddr)
-				if !ok {
-					return false
-				}
-				if p, ok := ia.X.(*ssa.Parameter); ok && p.Parent() == f {
-					idx = ia.Index
-					return true
-				}
-				return false
-			}, &flowOpts{through: map[string]bool{"(reflect.Value).Elem": true}})
+			okSrc = derivesAll(call.Call.Args[len(call.Call.Args)-1], isSlotValue, &flowOpts{through: map[string]bool{"(reflect.Value).Elem": true}})
 		}
 	}
 	c.check(okSrc && idx != nil && isForwardRangeIndex(idx), "order-compose", name+"#forward", ci.Pos(),
@@ -412,10 +460,27 @@ func c01UnsetRepr(c *Ctx, pfield *ssa.Function) {
 		// returns &originalField (the spilled parameter) ?
 		isOrig := false
 		if al, ok := rv.(*ssa.Alloc); ok {
-			if st := uniqueStore(al); st != nil && st.Val == ssa.Value(orig) {
-				isOrig = true
+			// an untouched whole copy of the spilled parameter (`originalField := originalField`) stands for it;
+			// a copy that is written afterwards (`newSF := originalField; newSF.Type = ...`) does not
+			for hops := 0; hops < 3; hops++ {
+				st := uniqueStore(al)
+				if st == nil {
+					break
+				}
+				if st.Val == ssa.Value(orig) {
+					isOrig = true
+					break
+				}
+				ld, isLd := st.Val.(*ssa.UnOp)
+				if !isLd || ld.Op != token.MUL || allocFieldWritten(al) {
+					break
+				}
+				src, isAl := ld.X.(*ssa.Alloc)
+				if !isAl || allocFieldWritten(src) {
+					break
+				}
+				al = src
 			}
-			// a copy `newSF := originalField` is not the original
 		}
 		if isOrig {
 			// the outermost kind atom is the kind of the field type: must be restricted to nil-able kinds
@@ -837,4 +902,20 @@ func c01StructPtrMerges(c *Ctx, leaf *ssa.Function) {
 	if n == 0 {
 		c.bad("struct-ptr-merges", name, leaf.Pos(), "no pointer replacement found in the Ptr arm of the leaf overlay")
 	}
+}
+
+// allocFieldWritten: some field of the allocated struct is stored to individually.
+func allocFieldWritten(al *ssa.Alloc) bool {
+	for _, r := range *al.Referrers() {
+		fa, ok := r.(*ssa.FieldAddr)
+		if !ok {
+			continue
+		}
+		for _, rr := range *fa.Referrers() {
+			if st, ok := rr.(*ssa.Store); ok && st.Addr == fa {
+				return true
+			}
+		}
+	}
+	return false
 }
